@@ -15,7 +15,7 @@ type GatedWriter struct {
 
 	buf   [][]byte
 	flush bool
-	lock  sync.RWMutex
+	lock  sync.Mutex
 }
 
 var _ io.Writer = &GatedWriter{}
@@ -23,19 +23,22 @@ var _ io.Writer = &GatedWriter{}
 // Flush tells the GatedWriter to flush any buffered data and to stop
 // buffering.
 func (w *GatedWriter) Flush() {
+	// Hold the lock across the replay: a concurrent Write must neither overtake
+	// the buffered data nor touch the buffer while it is being drained.
 	w.lock.Lock()
+	defer w.lock.Unlock()
 	w.flush = true
-	w.lock.Unlock()
 
 	for _, p := range w.buf {
-		w.Write(p)
+		w.Writer.Write(p)
 	}
 	w.buf = nil
 }
 
 func (w *GatedWriter) Write(p []byte) (n int, err error) {
-	w.lock.RLock()
-	defer w.lock.RUnlock()
+	// The buffer is appended to below, so this needs the exclusive lock.
+	w.lock.Lock()
+	defer w.lock.Unlock()
 
 	if w.flush {
 		return w.Writer.Write(p)
